@@ -1,6 +1,7 @@
 package main
 
 import (
+	"path/filepath"
 	"archive/zip"
 	"bytes"
 	"context"
@@ -192,11 +193,72 @@ func unpackZipExec(c *Ctx, op string) string {
 	return model + "\x00" + res
 }
 
+// unpackZipDiskExec: recipe "unpackzip-disk <filter> <fileset>" — a zip ware unpacked onto the real filesystem with a
+// filter: every entry on disk (symlinks and directories included: lstat) is the documented filtered entry
+func unpackZipDiskExec(c *Ctx, op string) {
+	c.Begin(op)
+	f := strings.Fields(op)
+	fstr := f[1]
+	fsx := parseFilesetTok(f[2])
+	caseCounter++
+	base := filepath.Join(c.Work, fmt.Sprintf("zd%d", caseCounter))
+	defer rmrf(base)
+	src, wh, dst := filepath.Join(base, "src"), filepath.Join(base, "wh"), filepath.Join(base, "dst")
+	os.MkdirAll(wh, 0755)
+	os.Setenv("RIO_CACHE", filepath.Join(base, "cache"))
+	os.Setenv("RIO_BASE", filepath.Join(base, "riobase"))
+	if Materialize(fsx, src, nil) != nil {
+		c.EmitR(op, "skip", "skip")
+		return
+	}
+	ctx := context.Background()
+	id, err := ziptrans.Pack(ctx, "zip", src, api.MustParseFilesetPackFilter(losslessPackStr), whAddr("file", wh), rio.Monitor{})
+	if err != nil {
+		c.EmitR(op, "skip", "skip")
+		return
+	}
+	uf := api.MustParseFilesetUnpackFilter(fstr)
+	for _, mode := range []rio.PlacementMode{rio.Placement_Direct, rio.Placement_Copy} {
+		os.RemoveAll(dst)
+		_, e, pan := safeCall(func() (api.WareID, error) {
+			return ziptrans.Unpack(ctx, id, dst, uf, mode, []api.WarehouseLocation{whAddr("file", wh)}, rio.Monitor{})
+		})
+		if pan != "" {
+			c.PropFail("panic-zip", "zip unpack with a filter panicked: "+pan, op)
+			continue
+		}
+		var want Fileset
+		rejected := false
+		for _, en := range truncateForFormat(fsx) {
+			w, rej, drop := specFilter("unpack", fstr, en, uint32(os.Getuid()), uint32(os.Getgid()))
+			rejected = rejected || rej
+			if !drop {
+				want = append(want, w)
+			}
+		}
+		if e != nil {
+			if !rejected {
+				c.PropFail("filter-reject", fmt.Sprintf("zip unpack (%s) with %s failed although no entry offends: %v", mode, fstr, e), op)
+			}
+			continue
+		}
+		got, se := Snapshot(dst)
+		if se != nil || got.Digest(true) != want.Digest(true) {
+			c.PropFail("filter-attr", fmt.Sprintf("zip unpack (%s) with %s did not materialise the documented filtered fileset: %s", mode, fstr, DiffFilesets(want, got, true)), op)
+		}
+	}
+	c.H("zipdisk")
+	c.EmitR(op, "skip", "skip")
+	c.Distinct(op)
+}
+
 func unpackZipEngine(c *Ctx) {
 	if ls := replayLines(); ls != nil {
 		for _, op := range ls {
 			if strings.HasPrefix(op, "unpackzip ") {
 				c.Emit2(op, unpackZipExec)
+			} else if strings.HasPrefix(op, "unpackzip-disk ") {
+				unpackZipDiskExec(c, op)
 			}
 		}
 		return
@@ -212,6 +274,17 @@ func unpackZipEngine(c *Ctx) {
 		parts := strings.SplitN(r, "\x00", 2)
 		c.EmitR(op, parts[0], parts[1])
 		return parts[1]
+	}
+	// on the real filesystem: files, directories and symlinks with foreign owners, under altering filters
+	{
+		t := int64(1300000000)
+		fsd := Fileset{{Name: "", Kind: 'd', Perms: 0755, Uid: 1111, Gid: 2222, Sec: t}, {Name: "f", Kind: 'f', Perms: 0644, Uid: 1111, Gid: 2222, Sec: t, Content: []byte("f")},
+			{Name: "ln", Kind: 'L', Perms: 0777, Uid: 1111, Gid: 2222, Sec: t + 5, Link: "f"}, {Name: "d", Kind: 'd', Perms: 02750, Uid: 1111, Gid: 2222, Sec: t + 9},
+			{Name: "d/ln2", Kind: 'L', Perms: 0777, Uid: 3, Gid: 4, Sec: t + 7, Link: "../f"}, {Name: "d/sg", Kind: 'f', Perms: 02755, Uid: 1111, Gid: 2222, Sec: t, Content: []byte("s")}}
+		for _, fstr := range []string{"uid=4242,gid=4343,mtime=@1400000000,sticky=follow,setid=follow,dev=follow", "uid=mine,gid=mine,mtime=follow,sticky=follow,setid=ignore,dev=follow",
+			"uid=follow,gid=follow,mtime=@86400,sticky=follow,setid=follow,dev=follow", "uid=follow,gid=follow,mtime=follow,sticky=follow,setid=follow,dev=follow"} {
+			unpackZipDiskExec(c, fmt.Sprintf("unpackzip-disk %s %s", fstr, filesetTok(fsd)))
+		}
 	}
 	// permanent corpus: the traps of the tar stream, in zip clothing, plus zip's own
 	file := func(n string) RawHdr { return RawHdr{Name: n, Typeflag: '0', Mode: 0644, Sec: 1e9, Content: []byte("c")} }
